@@ -54,6 +54,21 @@ def gen(rng, tier):
             case['tmax'] = -1
             case['mal'] = 'tmax'
         yield case
+    for _ in range(3 if tier == 'quick' else 40):
+        # a driven ring walk lumped badly: the Hummer-Szabo projection has negative entries, so the two settings of
+        # `positive` give different lumped models (the shared object is switched between them, see impl)
+        k = rng.randint(5, 7)
+        labs = rng.sample(range(0, 30), k)
+        t, cur = [], 0
+        for _i in range(rng.randint(700, 1500)):
+            t.append(labs[cur])
+            r = rng.random()
+            cur = (cur + 1) % k if r < 0.8 else cur if r < 0.95 else (cur - 1) % k
+        cuts = sorted(rng.sample(range(1, k), 2))
+        f = {labs[i]: 10 * (1 + sum(i >= c for c in cuts)) for i in range(k)}
+        lag = rng.choice([1, 2])
+        yield {'trajs': [t], 'lags': [lag], 'tmax': lag * rng.randint(3, 6), 'lumped': True, 'alpha': 'ring-bad-lumping', 'mal': None,
+               'macro': [[f[v] for v in t]]}
     for case in gen_extra(rng, tier):
         yield case
     for _ in range(8 if tier == 'quick' else 150):
@@ -159,8 +174,23 @@ def impl(case):
         except Exception:  # noqa
             pass
     r3 = mh.msm.ck_test(data, lags, case['tmax'])
+    flip = None
+    if case['lumped']:
+        # the public attribute `positive` of the SAME lumped object is switched between calls: every call answers for
+        # the setting it finds (= a fresh object built with that setting), also when the lag times repeat
+        def tried(f):
+            try:
+                return snap(f())
+            except Exception as exc:  # noqa
+                return {'err': type(exc).__name__}
+        data.positive = True
+        on = tried(lambda: mh.msm.ck_test(data, lags, case['tmax']))
+        fresh_on = tried(lambda: mh.msm.ck_test(mh.LumpedStateTraj([np.array(t) for t in case['macro']], trajs, positive=True), lags, case['tmax']))
+        data.positive = False
+        off = tried(lambda: mh.msm.ck_test(data, lags, case['tmax']))
+        flip = bool(on == fresh_on and off == before)
     return {'ok': out, 'alias_keys': sorted(map(str, r2.keys())) == sorted(map(str, r.keys())),
-            'fresh': snap(r3) == before and snap(r2) == before}
+            'fresh': snap(r3) == before and snap(r2) == before, 'flip': flip}
 
 
 def requests(case):
@@ -184,6 +214,9 @@ def judge(case, ibc, answers):
             if r.get('err') != 'TypeError':
                 P('impl-vs-spec', 'malformed %s not rejected with TypeError: %s' % (case['mal'], C.short(r, 80)))
             continue
+        if r.get('flip') is False:
+            P('impl-vs-spec', 'lumped object: after switching its attribute `positive` the CK test does not answer for the setting in force '
+              '(differs from a fresh object built with it, or does not return to the first answer when switched back)')
         if r.get('fresh') is False:
             P('impl-vs-spec', 'editing the arrays of one result in place changed another / a later result of the same call')
         if 'err' in r:
